@@ -41,6 +41,9 @@ var verifC17Src = []string{
 	"select id, first_value(v) over (partition by p order by k rows between 1 following and 9223372036854775807 following) from t", // 27
 	"select id, lag(v, 1, 'n') over (partition by p order by k), lag(v, 1, 'N') over (partition by p order by k) from t",            // 28: differ in the case of a literal only
 	"select id, count(*) over (partition by p) from (select k, v, p, id, row_number() over (partition by k order by v) as rn from t) s", // 29: the source is a subquery that ran an analytic function on other columns
+	"select id, lag(v, -1, -7) over (partition by p order by k) from t",                                 // 30: a negative offset reaches no row: the default
+	"select id, lead(v, -2) over (partition by p order by k) from t",                                    // 31
+	"select id, lag(v, 9223372036854775807, -7) over (partition by p order by k) from t",                // 32
 }
 
 var verifC17Queries []parser.SelectQuery
@@ -260,6 +263,10 @@ func VerifC17Analytic() {
 			}
 		case 29:
 			verifAssert("COUNT(*) over the partition of a subquery's result", isInt(int64(m)))
+		case 30, 32:
+			verifAssert("LAG with an offset that reaches no row: the default", isInt(-7))
+		case 31:
+			verifAssert("LEAD with an offset that reaches no row: NULL", value.IsNull(view.RecordSet[r][1][0]))
 		case 24:
 			verifAssert("COUNT over an empty frame", isInt(0))
 		case 25:
